@@ -89,10 +89,9 @@ CmpSeparated(a, sa, b, sb) ==
         D  == XAbsDiff(Ma, Mb)
     IN  IF REGIME = "exact" THEN ~XIsZero(D)
         ELSE IF BE = "f64" THEN XGt(D, RelTol(XMaxAbs(Ma, Mb)))
-        ELSE LET one(p, sp, q, sq) ==   \* q (scale sq) converted into p's unit (scale sp)
-                     XGt(XMul(XSub(D, AbsTol(XAdd(XAdd(sp, XMul(XAbs(q), sp)), XOne))), sp),
-                         AbsTol(XMul(XAbs(q), XMul(sq, sq))))
-             IN  one(a, sa, b, sb) /\ one(b, sb, a, sa)
+        ELSE LET one(sp, q) ==   \* rounding error of converting q into the unit with scale sp, in magnitude space
+                     XGt(D, AbsTol(XAdd(XAdd(sp, XMul(XAbs(q), sp)), XOne)))
+             IN  one(sa, b) /\ one(sb, a)
 
 CmpInRange(a, sa, b, sb, smin) ==
     /\ IsFin(a) /\ IsFin(b)
@@ -154,10 +153,8 @@ AddWithin(op, a, sa, b, sb, r) ==
     IN  IF REGIME = "exact" THEN XIsZero(lhs)
         ELSE IF BE = "f64" THEN XLe(lhs, RelTol(XAdd(XAbs(Ma), XAbs(Mb))))
                                 \/ XLe(lhs, XAdd(RelTol(XAdd(XAbs(Ma), XAbs(Mb))), XScale2(XAbs(sa), -1073)))
-        ELSE \* lhs*sa <= Kd*d*(sa^2 + |b|sa^2 + sa + |b|sb^2)
-             XLe(XMul(lhs, sa),
-                 AbsTol(XAdd(XAdd(XMul(sa, sa), XMul(XAbs(b), XMul(sa, sa))),
-                             XAdd(sa, XMul(XAbs(b), XMul(sb, sb))))))
+        ELSE \* lhs <= Kd*d*(sa + |b|sa + 1)   (conversion of b into a's unit; the addition itself is exact)
+             XLe(lhs, AbsTol(XAdd(XAdd(sa, XMul(XAbs(b), sa)), XOne)))
 
 \* ratio q = (a*sa)/(b*sb)
 RatioWithin(a, sa, b, sb, q) ==
@@ -166,13 +163,10 @@ RatioWithin(a, sa, b, sb, q) ==
         lhs == XAbsDiff(XMul(q, Mb), Ma)
     IN  IF REGIME = "exact" THEN XIsZero(lhs)
         ELSE IF BE = "f64" THEN XLe(lhs, RelTol(Ma)) \/ XLe(lhs, XAdd(RelTol(Ma), XScale2(XAbs(Mb), -1073)))
-        ELSE \* lhs*sa <= Kd*d*( |b|sb*sa + |q|(sa^2 + |b|sa^2 + sa + |b|sb^2) + sa + |q|sa )
+        ELSE \* lhs <= Kd*d*( |b|sb + |q|(sa + |b|sa + 1) + 1 + |q| )
              LET aq == XAbs(q)  ab == XAbs(b) IN
-             XLe(XMul(lhs, sa),
-                 AbsTol(XAdd(XAdd(XMul(ab, XMul(sb, sa)),
-                                  XMul(aq, XAdd(XAdd(XMul(sa, sa), XMul(ab, XMul(sa, sa))),
-                                                XAdd(sa, XMul(ab, XMul(sb, sb)))))),
-                             XAdd(sa, XMul(aq, sa)))))
+             XLe(lhs, AbsTol(XAdd(XAdd(XMul(ab, sb), XMul(aq, XAdd(XAdd(sa, XMul(ab, sa)), XOne))),
+                                  XAdd(XOne, aq))))
 
 ArithClauses(e) ==
     LET T   == e.T
@@ -427,6 +421,37 @@ TypeClauses(e) ==
                  /\ e.iter = <<"One">> /\ e.kind = "ref"
                  /\ OUnits(T)[1].sym.cp = <<>> /\ XEq(OUnits(T)[1].scale, XOne)) >>
 
+(* Identifier mapping of the macro, on code points (C11): the declared     *)
+(* identifier is split into words at '_' and at lower->upper boundaries;   *)
+(* name = '_' shown as space; variant = words capitalised and joined;      *)
+(* constant = words upper-cased and joined by '_'.  Alphabetic identifiers *)
+(* only (digits and acronyms are outside the claim).                       *)
+IsUpper(c) == c >= 65 /\ c <= 90
+IsLower(c) == c >= 97 /\ c <= 122
+ToUpper(c) == IF IsLower(c) THEN c - 32 ELSE c
+ToLower(c) == IF IsUpper(c) THEN c + 32 ELSE c
+Alphabetic(w) == \A i \in DOMAIN w : IsUpper(w[i]) \/ IsLower(w[i]) \/ w[i] = 95
+NameOf(w) == [i \in DOMAIN w |-> IF w[i] = 95 THEN 32 ELSE w[i]]
+\* a new word starts at i
+WordStart(w, i) == i = 1 \/ w[i - 1] = 95 \/ (IsUpper(w[i]) /\ IsLower(w[i - 1]))
+RECURSIVE VariantCp(_, _)
+VariantCp(w, i) == IF i > Len(w) THEN <<>>
+                   ELSE IF w[i] = 95 THEN VariantCp(w, i + 1)
+                   ELSE <<IF WordStart(w, i) THEN ToUpper(w[i]) ELSE ToLower(w[i])>> \o VariantCp(w, i + 1)
+RECURSIVE ConstCp(_, _)
+ConstCp(w, i) == IF i > Len(w) THEN <<>>
+                 ELSE IF w[i] = 95 THEN <<95>> \o ConstCp(w, i + 1)
+                 ELSE (IF WordStart(w, i) /\ i > 1 /\ w[i - 1] # 95 THEN <<95>> ELSE <<>>) \o <<ToUpper(w[i])>> \o ConstCp(w, i + 1)
+ConstOf(w) == ConstCp(w, 1)
+\* the variant is compared as a string: the registry carries the code points of every candidate id
+VariantOfCp(w) == VariantCp(w, 1)
+VariantOf(w) == LET v == VariantOfCp(w) IN
+                IF \E T \in DOMAIN Decl.types : \E i \in DOMAIN Decl.types[T].units : Decl.types[T].units[i].id_cp = v
+                THEN LET T == CHOOSE T \in DOMAIN Decl.types : \E i \in DOMAIN Decl.types[T].units : Decl.types[T].units[i].id_cp = v
+                         i == CHOOSE i \in DOMAIN Decl.types[T].units : Decl.types[T].units[i].id_cp = v
+                     IN  Decl.types[T].units[i].id
+                ELSE "?"
+
 (* scale against the declared definition n/d                               *)
 ScaleMatches(u, f, term) ==
     LET s == u.scale
@@ -447,12 +472,16 @@ UnitClauses(e) ==
         isref == Has(e, "scale")
         firstSym == IdOrDash(T, FirstIdx(T, LAMBDA u : u.sym.cp = e.sym.cp))
         firstScale == IdOrDash(T, FirstIdx(T, LAMBDA u : XEq(u.scale, e.scale)))
+        \* predefined quantities are judged under C07, generated / synthetic declarations under C11
+        P == IF kn /\ Decl.types[T].crate = "gen" THEN "C11" ELSE "C07"
     IN << Cl("C09.declared_unit", T # "Amount", kn),
-          Cl("C07.symbol", kn, e.sym.cp = du.sym_cp /\ e.display.cp = du.sym_cp),
-          Cl("C07.name", kn, e.name.cp = du.name_cp),
-          Cl("C07.prefix", kn, e.pfx = du.pfx),
-          Cl("C07.scale", kn /\ isref /\ du.def.kind # "none", ScaleMatches(e, DScale(T, e.id), du.term)),
-          Cl("C07.ref_scale_one", kn /\ isref /\ du.def.kind = "ref", XEq(e.scale, XOne) /\ e.is_ref),
+          Cl(P \o ".symbol", kn, e.sym.cp = du.sym_cp /\ e.display.cp = du.sym_cp),
+          Cl(P \o ".name", kn, e.name.cp = du.name_cp),
+          Cl(P \o ".prefix", kn, e.pfx = du.pfx),
+          Cl(P \o ".scale", kn /\ isref /\ du.def.kind # "none", ScaleMatches(e, DScale(T, e.id), du.term)),
+          Cl(P \o ".ref_scale_one", kn /\ isref /\ du.def.kind = "ref", XEq(e.scale, XOne) /\ e.is_ref),
+          Cl("C11.variant_and_const_names", kn /\ Decl.types[T].crate = "gen" /\ Alphabetic(du.w_cp),
+                 e.id = VariantOf(du.w_cp) /\ du.const_cp = ConstOf(du.w_cp) /\ du.name_cp = NameOf(du.w_cp)),
           Cl("C09.is_ref", kn /\ isref, e.is_ref = (du.def.kind = "ref")),
           Cl("C09.unit_from_symbol", OKnownT(T), e.from_symbol = firstSym),
           Cl("C09.unit_from_scale", OKnownT(T) /\ isref, e.from_scale = firstScale /\ e.unit_from_scale = firstScale),
